@@ -110,6 +110,9 @@ def serialize(cell: A5Cell) -> int:
             raise ValueError(f"S ({S}) is too large for resolution level {resolution}")
         # Next (2 * hilbertResolution) bits are S (hilbert index within segment)
         index += S << (HILBERT_START_BIT - hilbert_bits)
+    elif S != 0:
+        # Below the first Hilbert resolution there are no bits to hold S
+        raise ValueError(f"S ({S}) is too large for resolution level {resolution}")
   
     # Resolution is encoded by position of the least significant 1
     index |= 1 << (HILBERT_START_BIT - R)
